@@ -178,9 +178,11 @@ def run_tlc(cfg, tla, workers=1, env=None, extra=(), timeout=1800, metadir=None,
     return res
 
 
-def model_check(ctx, cfg, tla, workers=4, extra=(), timeout=1800, env=None, xmx="6g"):
-    """Exhaustive check of a bounded model of the specification (design level)."""
-    res = run_tlc(cfg, tla, workers=workers, extra=("-coverage", "1") + tuple(extra), timeout=timeout, env=env, xmx=xmx)
+def model_check(ctx, cfg, tla, workers=4, extra=(), timeout=1800, env=None, xmx="6g", coverage=False):
+    """Exhaustive check of a bounded model of the specification (design level).
+    coverage=True adds TLC's per-action statistics (cheap on small models, very slow on large images)."""
+    res = run_tlc(cfg, tla, workers=workers, extra=(("-coverage", "1") if coverage else ()) + tuple(extra), timeout=timeout,
+                  env=env, xmx=xmx)
     ctx.mc_states += res.distinct
     ctx.mc_transitions += res.generated
     ctx.mc_runs.append({"model": os.path.basename(tla), "cfg": os.path.basename(cfg), "distinct_states": res.distinct,
